@@ -1349,8 +1349,13 @@ class Executor:
             # `==`/`is` on engine objects is identity. The term datatype identifies objects of equal
             # structure, so the encoding is only exact when one side is a variable (identity = id)
             # or both are Python constants (== is value equality, A-PY-EQ). Otherwise: obligation.
-            ok = OR('((_ is TVar) %s)' % a.e, '((_ is TVar) %s)' % b.e,
-                    AND('((_ is TConst) %s)' % a.e, '((_ is TConst) %s)' % b.e))
+            if ident:
+                # `is` on two Python constants is object identity, not equality (equal ints above 256, equal strings built at
+                # run time are different objects): exact only when one side is a variable object
+                ok = OR('((_ is TVar) %s)' % a.e, '((_ is TVar) %s)' % b.e)
+            else:
+                ok = OR('((_ is TVar) %s)' % a.e, '((_ is TVar) %s)' % b.e,
+                        AND('((_ is TConst) %s)' % a.e, '((_ is TConst) %s)' % b.e))
             self.oblige(st.fork().tag('eq'), 'safety.identity_comparison_is_exact', ok, 'safety')
             return EQ(a.e, b.e)
         if a.sort == 'Tuple' and b.sort == 'Tuple' and not ident:
